@@ -135,8 +135,12 @@ theorem reverse_sndN {α} {opn close : TokenKind} (ho : opn ≠ .eof) (hc : clos
     (hcons : ∀ p x p1 xs p2, D p x p1 → L p1 xs p2 → L p (x :: xs) p2) (hitem : SndN item D) {z : Bool}
     {σ : PState} {xs : List α} {σ' : PState} (h : reverse opn item close z σ = .ok (xs, σ')) :
     ∃ o p1 p2 cl, Tok opn σ.pos o p1 ∧ L p1 xs p2 ∧ Tok close p2 cl σ'.pos ∧ σ' = σ.at σ'.pos ∧ (z = true → xs ≠ []) := by
-  simp only [reverse, bind_ok, expect_ok ho, cur_run, loopFuel_run, Except.ok.injEq, Prod.mk.injEq] at h
-  obtain ⟨o, σ1, ⟨hO, h1⟩, _, _, ⟨rfl, rfl⟩, k, _, ⟨rfl, rfl⟩, nodes, σ2, hm, h⟩ := h
+  simp only [reverse, bind_ok, expect_ok ho, cur_run, Except.ok.injEq, Prod.mk.injEq] at h
+  obtain ⟨o, σ1, ⟨hO, h1⟩, _, _, ⟨rfl, rfl⟩, h⟩ := h
+  split at h
+  · simp at h
+  simp only [bind_ok, loopFuel_run, Except.ok.injEq, Prod.mk.injEq] at h
+  obtain ⟨k, _, ⟨rfl, rfl⟩, nodes, σ2, hm, h⟩ := h
   obtain ⟨p, cl, hL, hC, h2⟩ := many_sndN hc hnil hcons hitem _ _ _ _ hm
   split at h
   · simp at h
@@ -554,8 +558,12 @@ theorem reverse_snd {α} {opn close : TokenKind} (ho : opn ≠ .eof) (hc : close
     {D : Pos → α → Pos → Prop} (hitem : Snd item D) {z : Bool}
     {σ : PState} {xs : List α} {σ' : PState} (h : reverse opn item close z σ = .ok (xs, σ')) (hb : σ'.bad = false) :
     ∃ o p1 p2 cl, Tok opn σ.pos o p1 ∧ Many D p1 xs p2 ∧ Tok close p2 cl σ'.pos ∧ σ' = σ.at σ'.pos ∧ (z = true → xs ≠ []) := by
-  simp only [reverse, bind_ok, expect_ok ho, cur_run, loopFuel_run, Except.ok.injEq, Prod.mk.injEq] at h
-  obtain ⟨o, σ1, ⟨hO, h1⟩, _, _, ⟨rfl, rfl⟩, k, _, ⟨rfl, rfl⟩, nodes, σ2, hm, h⟩ := h
+  simp only [reverse, bind_ok, expect_ok ho, cur_run, Except.ok.injEq, Prod.mk.injEq] at h
+  obtain ⟨o, σ1, ⟨hO, h1⟩, _, _, ⟨rfl, rfl⟩, h⟩ := h
+  split at h
+  · simp at h
+  simp only [bind_ok, loopFuel_run, Except.ok.injEq, Prod.mk.injEq] at h
+  obtain ⟨k, _, ⟨rfl, rfl⟩, nodes, σ2, hm, h⟩ := h
   split at h
   · simp at h
   · rename_i hz
@@ -1062,7 +1070,11 @@ theorem parseTypeSystemDefinition_snd : Snd parseTypeSystemDefinition DDefinitio
   obtain ⟨kw, σ1, ⟨_, _, ⟨rfl, rfl⟩, hkw⟩, h⟩ := h
   have hσ1 : σ1 = σ := by
     split at hkw
-    · simp only [lookahead_run, Except.ok.injEq, Prod.mk.injEq] at hkw; exact hkw.2.symm
+    · simp only [bind_ok, lookahead_run, Except.ok.injEq, Prod.mk.injEq] at hkw
+      obtain ⟨kw', _, ⟨rfl, rfl⟩, hkw⟩ := hkw
+      split at hkw
+      · simp at hkw
+      · exact (pure_ok.mp hkw).2.symm
     · exact (pure_ok.mp hkw).2.symm
   subst hσ1
   unfold dispatchKeyword at h
